@@ -75,9 +75,12 @@ def w_forms(cfg):
         acc.out.add((type(v).__name__, lat))
     # re-entrancy (preemption bound 1): a call suspended before any of its source lines while another call runs in between
     from engine.util import interleaved_ok
-    bad_, nsch = interleaved_ok(f, [(10.0,), (45.0,), (87.0,), (-88.5,), (0.0,)])
-    acc.n += nsch
-    acc.c["interleaved_schedules"] += nsch
+    bad_ = []
+    for bound_ in (1, 2):       # the function is short: every schedule with one AND with two preemptions
+        b__, nsch = interleaved_ok(f, [(10.0,), (45.0,), (87.0,), (-88.5,), (0.0,)], bound=bound_)
+        bad_ += b__
+        acc.n += nsch
+        acc.c["interleaved_schedules"] += nsch
     for a_, nm_, k_ in bad_:
         acc.bad(("" if cfg == "P" else "[C]") + "cprNL:answer_changes_when_another_call_runs_in_between",
                 {"cfg": cfg, "lat": float(a_[0]), "lat_hex": float(a_[0]).hex(), "form": "interleave", "preempt_before_line_event": k_})
@@ -178,7 +181,9 @@ def run(ctx):
 def replay(case):
     if case.get("form") == "interleave":
         from engine.util import interleaved_ok
-        bad_, _ = interleaved_ok(pm(case["cfg"]).common.cprNL, [(10.0,), (45.0,), (87.0,), (-88.5,), (0.0,)])
+        bad_ = []
+        for bound_ in (1, 2):
+            bad_ += interleaved_ok(pm(case["cfg"]).common.cprNL, [(10.0,), (45.0,), (87.0,), (-88.5,), (0.0,)], bound=bound_)[0]
         return [(("" if case["cfg"] == "P" else "[C]") + "cprNL:answer_changes_when_another_call_runs_in_between", case)] if bad_ else []
     if case.get("form") == "keyword":
         from engine.util import kw_call
